@@ -29,14 +29,15 @@ REAL = ["aiomysensors.Gateway.listen/send", "sleep buffer flush 2.0-2.2", "outgo
 STUB = ["event loop (SimLoop)", "transport (SimTransport with fail tape)"]
 ASSUMPTIONS = ["reference model is the oracle", "faults only on release writes"]
 REQUIRED_PROBES = ["fail_first_write", "fail_middle_write", "fail_last_write", "two_failures_two_wakes",
-                   "drained_after_faults", "send_between_faulty_wakes"]
+                   "drained_after_faults", "send_between_faulty_wakes", "race_with_write_fault"]
 ASPECTS = ("send", "writes.", "outcome")
+SHRINK_LISTS = ("ops", "tapes", "scn")
 PATTERNS = 128
 EXHAUSTIVE = False
 
 
 def budget(tier):
-    return PATTERNS * (24 if tier == "quick" else 1200)
+    return PATTERNS * (80 if tier == "quick" else 1200)
 
 
 def wall(tier):
@@ -44,6 +45,15 @@ def wall(tier):
 
 
 def gen(seed: int, i: int, tier: str) -> dict:
+    if i % 16 == 15:
+        # write faults while application sends race with the release (schedule sub-world shared with C09)
+        from props import c09
+        inner = c09.gen(seed, i, tier)
+        rng = random.Random(f"C08r:{seed}:{i}")
+        inner["tapes"]["w.fail.set"] = [rng.choice([0, 1, 2, 2]) for _ in range(rng.randint(1, 5))]
+        if not inner["tapes"].get("w.lat"):
+            inner["tapes"]["w.lat"] = [2, 1, 2]
+        return {"kind": "race", "scn": inner}
     pair, pattern = divmod(i, PATTERNS)
     rng = random.Random(f"C08:{seed}:{pair}")
     proto = rng.choice(G.PROTOS_2X)
@@ -75,6 +85,20 @@ def gen(seed: int, i: int, tier: str) -> dict:
 
 
 def run(scn):
+    if scn.get("kind") == "race":
+        from props import c09
+        from vsim.core import RunResult
+        inner = c09.run(scn["scn"])
+        res = RunResult()
+        res.digest, res.vt, res.steps, res.ops = inner.digest, inner.vt, inner.steps, inner.ops
+        res.faults.update(inner.faults)
+        if inner.faults.get("write_fail_early") or inner.faults.get("write_fail_late"):
+            res.probes["race_with_write_fault"] += 1
+            for v in inner.violations:
+                if v.oracle in ("last-write-is-maximal-send", "not-written-more-often-than-sent"):
+                    res.violate(PROP, "nothing-lost-nothing-repeated", f"{v.site}:send-racing-with-failing-release", v.detail)
+            res.nontrivial_key = "C08r:" + inner.digest[:24]
+        return res
     st = {"failed": 0, "fail_wakes": 0, "after_fault": False, "parked_left": False}
 
     def on_step(i, op, obs, disc, model, w, res):
